@@ -70,6 +70,18 @@ type vSrvConn struct {
 	h        *vHist
 	closes   atomic.Int32
 	released atomic.Bool // the consumer is done with it: a Close from now on is the consumer's
+	// a read of the wrapper hit the matching deadline before the connection was handed over (the
+	// machine was too slow for this client's stream): the wrapper then rightly drops it
+	deadlineHit atomic.Bool
+	handedOver  atomic.Bool
+}
+
+func (c *vSrvConn) Read(p []byte) (int, error) {
+	n, err := c.Conn.Read(p)
+	if err != nil && errors.Is(err, os.ErrDeadlineExceeded) && !c.handedOver.Load() {
+		c.deadlineHit.Store(true)
+	}
+	return n, err
 }
 
 func (c *vSrvConn) Close() error {
@@ -136,7 +148,12 @@ func (l *vInner) Addr() net.Addr { return vAddr("verif") }
 
 // ---- scripted routes ----------------------------------------------------------------------------
 
-const vC13Need = 4    // bytes every matcher wants to see
+const vC13Need = 4 // bytes every matcher wants to see
+// bytes a matcher wants to see of a 'G' stream: it stays undecided until the matching buffer is
+// nearly full, so that the last prefetch takes the buffer beyond MaxMatchingBytes when the segments
+// are not aligned with the chunk size
+const vC13Greedy = MaxMatchingBytes - 150
+
 const vC13Long = 3000 // bytes a matcher wants to see of an 'L' stream (more than one prefetch chunk)
 const vC13Prefix = 5  // bytes the non-terminal 'N' handler consumes
 
@@ -149,6 +166,11 @@ func (m vKindMatcher) Match(cx *Connection) (bool, error) {
 	}
 	if b[0] == 'L' {
 		if _, err := io.ReadFull(cx, make([]byte, vC13Long-vC13Need)); err != nil {
+			return false, err
+		}
+	}
+	if b[0] == 'G' {
+		if _, err := io.ReadFull(cx, make([]byte, vC13Greedy-vC13Need)); err != nil {
 			return false, err
 		}
 	}
@@ -211,7 +233,7 @@ func vIDOf(hdr []byte) int { return int(hdr[1])<<8 | int(hdr[2]) }
 
 func (k *vScConn) hijack() bool {
 	switch k.kind {
-	case 'F', 'N', 'S', 'L', 'M', 'P', 'Q':
+	case 'F', 'N', 'S', 'L', 'M', 'P', 'Q', 'G':
 		return true
 	}
 	return false
@@ -226,7 +248,7 @@ func (k *vScConn) consumed() int {
 
 func (k *vScConn) outcome() string {
 	switch k.kind {
-	case 'F', 'N', 'S', 'L', 'M', 'P', 'Q':
+	case 'F', 'N', 'S', 'L', 'M', 'P', 'Q', 'G':
 		return "Hijack"
 	case 'T', 'H':
 		return "Consumed"
@@ -284,7 +306,7 @@ func vC13Routes(sc *vScen) RouteList {
 		multi(MatcherSet{vKindMatcher{'M'}, vConstMatcher{false}}, never),
 		multi(MatcherSet{vKindMatcher{'P'}, vPeekMatcher{'P'}, vConstMatcher{true}}, passOn),
 		multi(MatcherSet{vKindMatcher{'Q'}, vConstMatcher{true}, vPeekMatcher{'Q'}}, nonTerminal),
-		mk('T', terminal), mk('R', reject), mk('N', nonTerminal), mk('S', tlsLike), mk('E', never), mk('H', held)}
+		mk('T', terminal), mk('R', reject), mk('N', nonTerminal), mk('K', nonTerminal), mk('S', tlsLike), mk('E', never), mk('H', held)}
 }
 
 // ---- scenario generation ------------------------------------------------------------------------
@@ -297,7 +319,7 @@ func (sc *vScen) add(k *vScConn) {
 
 func vC13Gen(r *vRng) *vScen {
 	n := 2 + r.Intn(9)
-	kinds := []byte{'F', 'F', 'F', 'T', 'R', 'N', 'S', 'E', 'L', 'X', 'Z', 'F', 'T', 'N', 'H', 'M', 'P', 'Q', 'M'}
+	kinds := []byte{'F', 'F', 'F', 'T', 'R', 'N', 'S', 'E', 'L', 'X', 'Z', 'F', 'T', 'N', 'H', 'M', 'P', 'Q', 'M', 'G', 'K'}
 	sc := &vScen{byID: map[int]*vScConn{}, byTag: map[int]*vScConn{}, release: make(chan struct{})}
 	for i := 0; i < n; i++ {
 		k := &vScConn{id: i + 1, tag: int(vC13Tag.Add(1)) & 0x7fff, kind: kinds[r.Intn(len(kinds))]}
@@ -305,6 +327,12 @@ func vC13Gen(r *vRng) *vScen {
 		switch k.kind {
 		case 'L':
 			ln = vC13Long + r.Intn(1500)
+		case 'G':
+			ln = MaxMatchingBytes + 300 + r.Intn(3000)
+		case 'K':
+			// the non-terminal handler takes its prefix, then the client stays silent with fewer
+			// bytes left than the later routes want: matching has to time out a second time
+			ln = vC13Prefix + 1 + r.Intn(vC13Need-1)
 		case 'X', 'Z':
 			ln = 1 + r.Intn(vC13Need-1)
 		default:
@@ -322,6 +350,17 @@ func vC13Gen(r *vRng) *vScen {
 		}
 		// segmentation
 		rest := ln
+		if k.kind == 'G' || (ln > 4096 && r.Intn(2) == 0) {
+			// not aligned with the prefetch chunk: a short first segment, then whole chunks
+			first := 1 + r.Intn(prefetchChunkSize-1)
+			k.segs = append(k.segs, first)
+			rest -= first
+			for rest > 0 {
+				s := min(rest, prefetchChunkSize)
+				k.segs = append(k.segs, s)
+				rest -= s
+			}
+		}
 		for rest > 0 {
 			s := rest
 			switch r.Intn(4) {
@@ -361,6 +400,7 @@ type vC13Plan struct {
 }
 
 type vC13Result struct {
+	timedOut         map[int]bool // matching deadline hit before hand-over: the wrapper drops such a connection
 	hist             []vEv
 	readBack         map[int][]byte
 	readErr          map[int]string
@@ -414,6 +454,14 @@ func vC13Run(sc *vScen, pl vC13Plan) *vC13Result {
 		}
 	}
 
+	srvs := map[int]*vSrvConn{}
+	var srvMu sync.Mutex
+	timedOut := func(id int) bool {
+		srvMu.Lock()
+		defer srvMu.Unlock()
+		sv := srvs[id]
+		return sv != nil && sv.deadlineHit.Load() && !sv.handedOver.Load()
+	}
 	// clients
 	var cw sync.WaitGroup
 	var matched sync.WaitGroup // rough: "all clients have written everything"
@@ -425,6 +473,9 @@ func vC13Run(sc *vScen, pl vC13Plan) *vC13Result {
 			at(k.startUs)
 			cl, sv := net.Pipe()
 			srv := &vSrvConn{Conn: sv, id: k.id, h: h}
+			srvMu.Lock()
+			srvs[k.id] = srv
+			srvMu.Unlock()
 			select {
 			case inner.ch <- srv:
 			case <-inner.closed:
@@ -562,6 +613,7 @@ func vC13Run(sc *vScen, pl vC13Plan) *vC13Result {
 			h.add("Del", -1)
 			return
 		}
+		sv.handedOver.Store(true)
 		h.add("Del", sv.id)
 		if cs, ok := c.(interface{ ConnectionState() tls.ConnectionState }); ok {
 			rmu.Lock()
@@ -574,14 +626,19 @@ func vC13Run(sc *vScen, pl vC13Plan) *vC13Result {
 	}
 
 	at(pl.startAccepts)
-	nHijack := 0
-	for _, k := range sc.conns {
-		if k.hijack() {
-			nHijack++
+	expectHijack := func() int {
+		n := 0
+		for _, k := range sc.conns {
+			if k.hijack() && !timedOut(k.id) {
+				n++
+			}
 		}
+		return n
 	}
+	nHijack := expectHijack()
 	gotErr := false
 	for i := 0; !gotErr; i++ {
+		nHijack = expectHijack()
 		if pl.closeAfter >= 0 && results >= min(pl.closeAfter, nHijack) {
 			doClose()
 		}
@@ -651,6 +708,12 @@ func vC13Run(sc *vScen, pl vC13Plan) *vC13Result {
 	case <-time.After(7 * time.Second):
 	}
 	res.hist = h.snapshot()
+	res.timedOut = map[int]bool{}
+	for _, k := range sc.conns {
+		if timedOut(k.id) {
+			res.timedOut[k.id] = true
+		}
+	}
 	return res
 }
 
@@ -659,7 +722,11 @@ func vC13Run(sc *vScen, pl vC13Plan) *vC13Result {
 func vC13Coq(sc *vScen, res *vC13Result) string {
 	var cs, es []string
 	for _, k := range sc.conns {
-		cs = append(cs, fmt.Sprintf("(%d,%s)", k.id, k.outcome()))
+		o := k.outcome()
+		if o == "Hijack" && res.timedOut[k.id] {
+			o = "Rejected" // matching timed out on this machine before the stream was complete
+		}
+		cs = append(cs, fmt.Sprintf("(%d,%s)", k.id, o))
 	}
 	for _, e := range res.hist {
 		switch e.k {
@@ -719,7 +786,7 @@ func vC13Oracle(out *vOut, sc *vScen, pl vC13Plan, res *vC13Result) (shape strin
 		if arr[k.id] == 0 {
 			continue
 		}
-		if k.hijack() {
+		if k.hijack() && !res.timedOut[k.id] {
 			nh++
 			if del[k.id] > 1 {
 				out.Fail("C13:handover:delivered-twice", fmt.Sprintf("connection %d was returned by Accept %d times", k.id, del[k.id]), in(map[string]any{"connection": k.id}))
@@ -847,6 +914,19 @@ func vC13MultiMatcher() (*vScen, vC13Plan) {
 		k.gapUs = 100
 		sc.add(k)
 	}
+	// a stream that takes the matching buffer beyond MaxMatchingBytes with unaligned segments, and
+	// a connection that goes silent after a non-terminal match
+	g := &vScConn{id: 5, tag: int(vC13Tag.Add(1)) & 0x7fff, kind: 'G', startUs: 1200}
+	g.stream = vC13Stream('G', g.tag, MaxMatchingBytes+2500)
+	g.segs = []int{100}
+	for rest := len(g.stream) - 100; rest > 0; rest -= min(rest, prefetchChunkSize) {
+		g.segs = append(g.segs, min(rest, prefetchChunkSize))
+	}
+	sc.add(g)
+	q := &vScConn{id: 6, tag: int(vC13Tag.Add(1)) & 0x7fff, kind: 'K', startUs: 1500}
+	q.stream = vC13Stream('K', q.tag, vC13Prefix+2)
+	q.segs = []int{len(q.stream)}
+	sc.add(q)
 	return sc, vC13Plan{procs: 2, closeAfter: -1, readLate: false, acceptDelay: []int{100}}
 }
 
@@ -960,6 +1040,7 @@ func TestVerifC13(t *testing.T) {
 	n := vN(40)
 	r := vNewRng(seed)
 	var slow time.Duration
+	loadTimeouts := 0
 	run := func(sc *vScen, pl vC13Plan, cls string) {
 		t0 := time.Now()
 		defer func() {
@@ -969,6 +1050,10 @@ func TestVerifC13(t *testing.T) {
 			}
 		}()
 		res := vC13Run(sc, pl)
+		if len(res.timedOut) > 0 {
+			loadTimeouts += len(res.timedOut)
+			out.Stat("matching_timeouts_before_handover", loadTimeouts)
+		}
 		shape, nt := vC13Oracle(out, sc, pl, res)
 		out.Case(vC13Coq(sc, res), cls+"/"+shape, nt, nil)
 	}
